@@ -38,6 +38,15 @@ type Violation struct {
 	GoTest   string      `json:"go_test,omitempty"`
 }
 
+// HomeDir is where the committed inputs live (KNOWN_FINDINGS.txt, golden vectors): the
+// directory of run.sh. It differs from VerifDir only when outputs are redirected.
+var HomeDir = func() string {
+	if d := os.Getenv("VERIF_HOME"); d != "" {
+		return d
+	}
+	return VerifDir
+}()
+
 // Run accumulates what one check invocation covered.
 type Run struct {
 	Property string
@@ -123,7 +132,7 @@ type Known struct {
 
 // LoadKnown parses /verif/KNOWN_FINDINGS.txt (never written at run time).
 func LoadKnown() []Known {
-	f, err := os.Open(filepath.Join(VerifDir, "KNOWN_FINDINGS.txt"))
+	f, err := os.Open(filepath.Join(HomeDir, "KNOWN_FINDINGS.txt"))
 	if err != nil {
 		return nil
 	}
